@@ -395,22 +395,6 @@ Qed.
 
 (* the watch bits written by a task agree with the derived watch sets of the C09 model: after the task, row r watches v
    exactly when v occurs in the new row (for every v other than x_j, whose watch set the pivot swaps out beforehand) *)
-Lemma coef_remove_other v w ts : v <> w -> coef v (remove_term w ts) = coef v ts.
-Proof.
-  intro N. induction ts as [| [u d] t IH]; simpl; auto. destruct (Nat.eqb w u) eqn:E.
-  - apply Nat.eqb_eq in E. subst. destruct (Nat.eqb v u) eqn:E2; auto. apply Nat.eqb_eq in E2. congruence.
-  - simpl. rewrite IH. reflexivity.
-Qed.
-Lemma coef_add_other v w c ts : v <> w -> coef v (add_term w c ts) = coef v ts.
-Proof.
-  intro N. induction ts as [| [u d] t IH]; simpl.
-  - destruct (Nat.eqb v w) eqn:E; auto. apply Nat.eqb_eq in E. congruence.
-  - destruct (Nat.ltb w u); simpl.
-    + destruct (Nat.eqb v w) eqn:E; auto. apply Nat.eqb_eq in E. congruence.
-    + destruct (Nat.eqb w u) eqn:E.
-      * apply Nat.eqb_eq in E. subst. destruct (Qeq_bool (d + c) 0); simpl; destruct (Nat.eqb v u) eqn:E2; auto; apply Nat.eqb_eq in E2; congruence.
-      * simpl. rewrite IH. reflexivity.
-Qed.
 Lemma coef_insert_other v w c ts : v <> w -> coef v (insert_term w c ts) = coef v ts.
 Proof.
   intro N. induction ts as [| [u d] t IH]; simpl.
